@@ -63,6 +63,21 @@ func EncodedPaths(fn *ssa.Function, sinkSpec string, argIdx int) []Enc {
 	return out
 }
 
+// RebaseEncs rewrites parameter i of helper encodes to the caller's root.
+func RebaseEncs(encs []Enc, i int, with string) []Enc {
+	out := make([]Enc, len(encs))
+	for k, e := range encs {
+		e.Path = replaceParam(e.Path, i, with)
+		gs := make([]Cond, len(e.Guards))
+		for j, g := range e.Guards {
+			gs[j] = Cond{Canon: replaceParam(g.Canon, i, with), Sense: g.Sense}
+		}
+		e.Guards = gs
+		out[k] = e
+	}
+	return out
+}
+
 func replaceParam(s string, i int, with string) string {
 	tok := fmt.Sprintf("p%d", i)
 	var b strings.Builder
@@ -160,6 +175,7 @@ type Coverage struct {
 	Excluded  map[string]string
 	CondFor   func(path string) []Cond // required guards (besides loop conditions)
 	AllowCond func(path string, g Cond) bool // extra guards tolerated (e.g. `len(x) > 0` omissions of the v1 encoding)
+	Extra     []Enc // encodes performed by helper functions, already rewritten to Root
 }
 
 func (c *Ctx) FieldCoverage(fn *ssa.Function, cv Coverage) {
@@ -167,7 +183,7 @@ func (c *Ctx) FieldCoverage(fn *ssa.Function, cv Coverage) {
 		return
 	}
 	fnName := load.QualName(fn)
-	encs := EncodedPaths(fn, cv.Sink, cv.ArgIdx)
+	encs := append(EncodedPaths(fn, cv.Sink, cv.ArgIdx), cv.Extra...)
 	if len(encs) == 0 {
 		c.Fail("floor", fnName, "K4: encoder sink calls present", "-", "no call matching "+cv.Sink)
 		return
